@@ -976,6 +976,12 @@ class Evaluator(object):
     def ev_Constant(self, node, env):
         return tm.const(node.value)
 
+    def ev_NamedExpr(self, node, env):
+        # (name := value): binds the name in the enclosing scope and yields the value
+        v = self.ev(node.value, env)
+        self.assign(node.target, v, env, node)
+        return v
+
     def ev_Name(self, node, env):
         return self.lookup(node.id, env, node)
 
